@@ -131,11 +131,22 @@ pub fn solve_milp_lp_problem_with(
     for (i, var) in variables.iter().enumerate() {
         let var_domain = domain.get(var).unwrap();
         let coeff = objective[i];
+        // A variable without any finite bound is handed to MicroLP as the difference of
+        // two non-negative columns: MicroLP cycles or reports wrong verdicts on free columns.
         let added_var = match var_domain.get_type() {
-            VariableType::Real(min, max) => problem.add_var(coeff, (*min, *max)),
-            VariableType::Boolean => problem.add_binary_var(coeff),
-            VariableType::IntegerRange(min, max) => problem.add_integer_var(coeff, (*min, *max)),
-            VariableType::NonNegativeReal(min, max) => problem.add_var(coeff, (*min, *max)),
+            VariableType::Real(min, max) if *min == f64::NEG_INFINITY && *max == f64::INFINITY => {
+                let positive = problem.add_var(coeff, (0.0, f64::INFINITY));
+                let negative = problem.add_var(-coeff, (0.0, f64::INFINITY));
+                (positive, Some(negative))
+            }
+            VariableType::Real(min, max) => (problem.add_var(coeff, (*min, *max)), None),
+            VariableType::Boolean => (problem.add_binary_var(coeff), None),
+            VariableType::IntegerRange(min, max) => {
+                (problem.add_integer_var(coeff, (*min, *max)), None)
+            }
+            VariableType::NonNegativeReal(min, max) => {
+                (problem.add_var(coeff, (*min, *max)), None)
+            }
         };
         microlp_vars.push(added_var);
     }
@@ -162,7 +173,9 @@ pub fn solve_milp_lp_problem_with(
         let microlp_coeffs = microlp_vars
             .iter()
             .zip(coeffs.iter())
-            .map(|(v, c)| (*v, *c))
+            .flat_map(|((positive, negative), c)| {
+                std::iter::once((*positive, *c)).chain(negative.map(|negative| (negative, -*c)))
+            })
             .collect::<Vec<_>>();
         problem.add_constraint(microlp_coeffs, microlp_comparison_type, rhs);
     }
@@ -179,11 +192,14 @@ pub fn solve_milp_lp_problem_with(
 
     match problem.solve_with(solve_options) {
         Ok(s) => {
+            let value_of = |(positive, negative): &(microlp::Variable, Option<microlp::Variable>)| {
+                s.var_value(*positive) - negative.map_or(0.0, |negative| s.var_value(negative))
+            };
             let assignment = microlp_vars
                 .iter()
                 .zip(variables)
                 .map(|(v, name)| {
-                    let value = s.var_value(*v);
+                    let value = value_of(v);
                     let var_domain = domain.get(name).unwrap();
                     let value = match var_domain.get_type() {
                         VariableType::Real(_, _) | VariableType::NonNegativeReal(_, _) => {
@@ -198,7 +214,7 @@ pub fn solve_milp_lp_problem_with(
                     }
                 })
                 .collect();
-            let coeffs = microlp_vars.iter().map(|v| s.var_value(*v)).collect();
+            let coeffs = microlp_vars.iter().map(value_of).collect();
             let constraints = make_constraints_map_from_assignment(lp, &coeffs);
             Ok(LpSolution::new(
                 assignment,
